@@ -220,7 +220,8 @@ pub fn run(sc: &Scenario, stats: &mut Stats) {
         ev(json!({"ev":"sent"}));
         let mut stream = pin!(stream);
         // (index, the item itself, address and length of the string it borrows, its bytes when yielded)
-        let mut held: Vec<(usize, Item<'_>, usize, usize, Vec<u8>)> = Vec::new();
+        // ... and the marks (transport reads, frees) at the time it was yielded
+        let mut held: Vec<(usize, Item<'_>, usize, usize, Vec<u8>, usize, usize)> = Vec::new();
         let mut nitems = 0usize;
         let mut script: std::collections::VecDeque<Step> = sc.steps.iter().cloned().collect();
         let mut budget = 4 * sc.frames.len() + sc.steps.len() + 16;
@@ -267,7 +268,9 @@ pub fn run(sc: &Scenario, stats: &mut Stats) {
                                 let b = borrowed(&it);
                                 (b.as_ptr() as usize, b.len(), b.as_bytes().to_vec())
                             };
-                            held.push((nitems, it, p, n, saved));
+                            let fills_mark = wire.borrow().fills.len();
+                            let freed_mark = crate::FREED_N.load(std::sync::atomic::Ordering::Relaxed);
+                            held.push((nitems, it, p, n, saved, fills_mark, freed_mark));
                         }
                     }
                 }
@@ -287,7 +290,7 @@ pub fn run(sc: &Scenario, stats: &mut Stats) {
                 }
             }
             // what safe code sees when it looks at the items it still holds
-            for (k, _it, ptr, len, saved) in &held {
+            for (k, _it, ptr, len, saved, fills_mark, freed_mark) in &held {
                 // The bytes the held reference points to (what `item.s` would read). They are read
                 // as plain bytes: after the defect under study they need not be UTF-8 any more.
                 let now = unsafe { std::slice::from_raw_parts(*ptr as *const u8, *len) };
@@ -296,7 +299,39 @@ pub fn run(sc: &Scenario, stats: &mut Stats) {
                 if !same {
                     stats.held_changed += 1;
                 }
-                ev(json!({"ev":"check","k":k,"same":same}));
+                if same {
+                    ev(json!({"ev":"check","k":k,"same":true}));
+                    continue;
+                }
+                // Measurements for the judgement of a change (all positions relative to the item's first byte):
+                // the runs of changed bytes, the memory the transport reads issued since the item was yielded
+                // were given to fill plus the end marker behind what they delivered, and whether the block
+                // the item points into was freed meanwhile.
+                let mut changed: Vec<[i64; 2]> = Vec::new();
+                for i in 0..*len {
+                    if now[i] != saved[i] {
+                        match changed.last_mut() {
+                            Some(r) if r[1] + 1 == i as i64 => r[1] = i as i64,
+                            _ => changed.push([i as i64, i as i64]),
+                        }
+                    }
+                }
+                let mut windows: Vec<[i64; 2]> = wire.borrow().fills[*fills_mark..]
+                    .iter()
+                    .map(|(p, _cap, n)| [*p as i64 - *ptr as i64, *p as i64 + *n as i64 - *ptr as i64])
+                    .filter(|w| w[1] >= 0 && w[0] < *len as i64)
+                    .map(|w| [w[0].max(0), w[1].min(*len as i64 - 1)])
+                    .collect();
+                windows.sort();
+                let mut merged: Vec<[i64; 2]> = Vec::new();
+                for w in windows {
+                    match merged.last_mut() {
+                        Some(m) if w[0] <= m[1] + 1 => m[1] = m[1].max(w[1]),
+                        _ => merged.push(w),
+                    }
+                }
+                let freed = crate::freed_since(*freed_mark, *ptr).unwrap_or(true);
+                ev(json!({"ev":"check","k":k,"same":false,"freed":freed,"changed":changed,"windows":merged}));
             }
             if stop {
                 break;
@@ -471,6 +506,56 @@ pub fn gen_all_flags(r: &mut Rng, maxn: usize, out: &mut Vec<Scenario>, hold: bo
                 st = 1;
             }
             sc.steps = gen_steps(r, &lens, st);
+            out.push(sc);
+        }
+    }
+}
+
+/// Held items at the boundaries of later transport reads: replies 1 and 2 arrive in one read and are held;
+/// reply 3 arrives later (in one read or in two) and its length is swept so that the end of what that
+/// read delivers passes over every position from just before to just behind the string reply 2 lends.
+pub fn gen_hold_edges(r: &mut Rng, out: &mut Vec<Scenario>) {
+    for (v, kinds) in [["plain", "plain", "plain"], ["more", "plain", "oneway"]].iter().enumerate() {
+        let calls: Vec<String> = kinds.iter().map(|k| k.to_string()).collect();
+        let (pad1, pad2) = (r.range(16, 28), r.range(2, 9));
+        let mk = |pad3: usize| {
+            let frames = if v == 0 {
+                vec![
+                    RFrame { call: 1, err: false, cont: false, pad: pad1 },
+                    RFrame { call: 2, err: false, cont: false, pad: pad2 },
+                    RFrame { call: 3, err: false, cont: false, pad: pad3 },
+                ]
+            } else {
+                vec![
+                    RFrame { call: 1, err: false, cont: true, pad: pad1 },
+                    RFrame { call: 1, err: false, cont: true, pad: pad2 },
+                    RFrame { call: 1, err: false, cont: false, pad: pad3 },
+                    RFrame { call: 2, err: false, cont: false, pad: 0 },
+                ]
+            };
+            Scenario { sid: String::new(), calls: calls.clone(), frames, steps: vec![], hold: true }
+        };
+        let base = mk(0);
+        let lens = frame_lens(&base);
+        let f2 = frame_bytes(2, &base.frames[1], &base.calls[base.frames[1].call - 1]);
+        let at = f2.windows(5).position(|w| w == b"\"s\":\"").map(|p| p + 5).unwrap_or(0);
+        let (lo, hi) = (lens[0] + at, lens[0] + lens[1] - 1); // the lent string .. the end of reply 2
+        for end in lo.saturating_sub(4)..=hi + 3 {
+            // `end` = number of bytes the later read delivers
+            if end < lens[2] {
+                continue;
+            }
+            let mut sc = mk(end - lens[2]);
+            let l = frame_lens(&sc);
+            debug_assert_eq!(l[2], end);
+            sc.sid = format!("e{v}-{end}");
+            sc.steps = vec![Step::Feed(l[0] + l[1]), Step::Poll, Step::Poll, Step::Poll];
+            if end % 2 == 0 {
+                sc.steps.push(Step::Feed(l[2]));
+            } else {
+                let c = r.range(1, l[2] - 1);
+                sc.steps.extend([Step::Feed(c), Step::Poll, Step::Feed(l[2] - c)]);
+            }
             out.push(sc);
         }
     }
